@@ -187,6 +187,11 @@ func (f *Fakes) RoundTrip(r *http.Request) (*http.Response, error) {
 		}
 	}
 	out := f.record(svc, call, reqs, multi, files, true)
+	if fault != nil && fault.Kind == "status500-validbody" {
+		f.FaultsApplied++
+		b, _ := json.Marshal(out)
+		return httpResp(500, b), nil
+	}
 	if fault != nil {
 		var applied bool
 		out, applied = applyFault(out, fault)
@@ -420,6 +425,13 @@ func applyFault(out []interface{}, ft *Fault) ([]interface{}, bool) {
 			out[pos] = map[string]interface{}{"data": m["data"], "errors": []interface{}{errPayload(1), errPayload(2)}}
 			applied = true
 		}
+	case "errors2same":
+		if m := el(); m != nil {
+			e1, e2 := errPayload(1), errPayload(2)
+			e2["message"] = e1["message"] // same message, different path / extensions
+			out[pos] = map[string]interface{}{"data": nil, "errors": []interface{}{e1, e2}}
+			applied = true
+		}
 	case "datanull":
 		if m := el(); m != nil {
 			out[pos] = map[string]interface{}{"data": nil}
@@ -430,7 +442,7 @@ func applyFault(out []interface{}, ft *Fault) ([]interface{}, bool) {
 			out[pos] = map[string]interface{}{}
 			applied = true
 		}
-	case "entry-scalar", "entry-null", "obj-scalar", "list-object", "no-id", "foreign-id", "field-null", "obj-list":
+	case "entry-scalar", "entry-null", "obj-scalar", "list-object", "no-id", "foreign-id", "field-null", "obj-list", "obj-empty-list", "list-null":
 		if m := el(); m != nil {
 			cp := gqlref.Norm(m["data"])
 			if shapeFault(cp, ft.Kind) {
@@ -501,6 +513,10 @@ func shapeFault(v interface{}, kind string) bool {
 					x[k] = map[string]interface{}{"unexpected": "object"}
 					return true
 				}
+				if kind == "list-null" {
+					x[k] = nil
+					return true
+				}
 				if len(c) > 0 {
 					if _, isObj := c[0].(map[string]interface{}); isObj {
 						if kind == "entry-scalar" {
@@ -520,6 +536,10 @@ func shapeFault(v interface{}, kind string) bool {
 				}
 				if kind == "obj-list" && k != "node" {
 					x[k] = []interface{}{c}
+					return true
+				}
+				if kind == "obj-empty-list" && k != "node" {
+					x[k] = []interface{}{}
 					return true
 				}
 			case string, float64, bool:
